@@ -29,6 +29,7 @@ func runC17(c *Ctx) {
 	r.Rule("H4", "scalar text reaches output only through a sanitiser", 3)
 	ruleF1(c, "H5", 100)
 	ruleF2(c, "H6")
+	ruleH7(c)
 	pk := c.P.lib()
 	info := pk.TypesInfo
 	inert := rsFromString(posixInert)
@@ -636,3 +637,40 @@ func taintReachesSink(v ssa.Value, sanitiser map[string]bool, depth int, seen ma
 }
 
 var _ = types.Typ
+
+// ruleH7: every component of a -o=shell variable name passes through appendPath
+// (which sanitises it and prefixes a root component that does not start with a
+// letter or underscore): the path argument of each recursive doEncode call is
+// the result of appendPath, or the path it was given.
+func ruleH7(c *Ctx) {
+	r := c.R
+	r.Rule("H7", "every name component of -o=shell goes through appendPath", 2)
+	fn := c.libFunc("shellVariablesEncoder.doEncode")
+	if fn == nil {
+		r.Fatal("anchor missing: (*shellVariablesEncoder).doEncode")
+		return
+	}
+	pathParam := fn.Params[len(fn.Params)-1]
+	n := 0
+	eachInstr(fn, func(ins ssa.Instruction) {
+		call, ok := ins.(*ssa.Call)
+		if !ok || call.Call.StaticCallee() != fn {
+			return
+		}
+		n++
+		arg := call.Call.Args[len(call.Call.Args)-1]
+		key := fmt.Sprintf("doEncode/recursive-call#%d", n)
+		okArg := arg == ssa.Value(pathParam)
+		if c2, isCall := arg.(*ssa.Call); isCall && c2.Call.StaticCallee() != nil && c2.Call.StaticCallee().Name() == "appendPath" {
+			okArg = true
+		}
+		if okArg {
+			r.Discharge("H7", key, c.P.pos(call.Pos()), "child name = appendPath(path, component)")
+		} else {
+			r.Finding("H7", key, c.P.pos(call.Pos()), "the name of a child is built as "+exprOfValue(arg)+" without appendPath: a component that is the first of the name (a root sequence index, a digit-leading key) is not prefixed and the line is no longer NAME=VALUE with a legal NAME")
+		}
+	})
+	if n == 0 {
+		r.Undecided("H7", "doEncode/recursive-call", c.P.pos(fn.Pos()), "doEncode no longer calls itself for children: shape not recognised")
+	}
+}
